@@ -29,6 +29,10 @@ static int cap_calls;
 
 static void capture(const unsigned char *sig, size_t len)
 {
+	/* the libraries are not instrumented: touch every byte the glue hands over from instrumented code, so that a
+	 * buffer the glue sized too small (and the library then overran) is an AddressSanitizer report */
+	static unsigned char seen[4096];
+	memcpy(seen, sig, len < sizeof seen ? len : sizeof seen);
 	const unsigned char *p = sig;
 	ECDSA_SIG *e = d2i_ECDSA_SIG(NULL, &p, (long)len);
 	cap_calls++;
